@@ -18,6 +18,7 @@ Step(e) ==
       [] e.ev = "Route"    -> MRoute(e.mx, e)
       [] e.ev = "Deliver"  -> MDeliver(e.mx, e)
       [] e.ev = "Drop"     -> MDrop(e.mx, e)
+      [] e.ev = "Consume"  -> MConsume(e.mx, e)
       [] e.ev = "Err"      -> MErrEv(e.mx, e)
       [] e.ev = "StopCall" -> MStopCall(e.mx)
       [] e.ev = "Exit"     -> MExit(e.mx)
